@@ -16,7 +16,7 @@ From Coq Require Import List NArith Bool Permutation.
 From JV.lib Require Import Bytes.
 From JV.gen Require Import Collections RulesFacts.
 From JV.model Require Import OrderedMap LockDiscipline RulesBuilder RulesLocks.
-From JV.proofs Require Import OrderedMapProofs OrderedMapEachProofs RulesBuilderProofs.
+From JV.proofs Require Import OrderedMapProofs OrderedMapEachProofs RulesBuilderProofs RulesEachProofs.
 Import ListNotations.
 
 (* Atomicity premise, on the regenerated facts: in every safe collection every writer holds
@@ -527,3 +527,33 @@ Theorem rules_new_rules_is_sets :
   rs_new K V keq d = rb_run K V keq (map (fun r => WSet (rkey r) r) d).
 Proof. exact new_rules_is_sets_lemma. Qed.
 Print Assumptions rules_new_rules_is_sets.
+
+(* Each of catalog.Rules when the callback returns an error (rules.go: the loop returns the first error), for EVERY
+   state and EVERY callback: the callback was called on a prefix of the rules in data order, an error comes back
+   exactly when some rule makes the callback fail, the rule it stopped at is the FIRST such rule, and without an
+   error every rule was visited. *)
+Theorem rules_each_stops_at_first_error :
+  forall (K V : Type) (stop : K -> rule K V -> bool) (s : rstate K V),
+  let r := rs_each_until K V stop s in
+  (exists rest, rs_each K V s = fst r ++ rest) /\
+  snd r = existsb (stops K (rule K V) stop) (rs_each K V s) /\
+  (snd r = true -> exists pre kv, fst r = pre ++ [kv] /\ stops K (rule K V) stop kv = true /\
+                                  forallb (fun x => negb (stops K (rule K V) stop x)) pre = true) /\
+  (snd r = false -> fst r = rs_each K V s).
+Proof. exact rules_each_until_spec_lemma. Qed.
+Print Assumptions rules_each_stops_at_first_error.
+
+Theorem rules_each_never_fails_is_listing :
+  forall (K V : Type) (s : rstate K V),
+  rs_each_until K V (fun _ _ => false) s = (rs_each K V s, false).
+Proof. exact rules_each_never_fails_lemma. Qed.
+Print Assumptions rules_each_never_fails_is_listing.
+
+(* after ANY history of writers the callback is shown the calls made so far, oldest first, each under the key it
+   was stored with, up to the first one it fails at *)
+Theorem rules_each_until_is_history_prefix :
+  forall (K V : Type) (keq : K -> K -> bool) (ops : list (wop K V)) (stop : K -> rule K V -> bool),
+  let r := rs_each_until K V stop (rb_run K V keq ops) in
+  exists rest, map (fun e => (@rkey K V e, e)) (map (entry_of K V) ops) = fst r ++ rest.
+Proof. exact rules_each_until_history_lemma. Qed.
+Print Assumptions rules_each_until_is_history_prefix.
